@@ -10,6 +10,82 @@ namespace DI.Gen
 
 open DI.Py
 
+/-- dataiter/list_of_dicts.py: ListOfDicts.anti_join (sha256 of the function source: 239f983edc83bde5) -/
+def ListOfDicts_anti_join (truth : Term → Bool) : Out :=
+  let tup0_1' : Term := (Term.app "._split_join_by" [(Term.sym "self"), (Term.app "*" [(Term.sym "by")])]);
+  let by1' : Term := (Term.app "item0" [tup0_1']);
+  let by2' : Term := (Term.app "item1" [tup0_1']);
+  let extract1' : Term := (Term.app "operator.itemgetter" [(Term.app "*" [by1'])]);
+  let extract2' : Term := (Term.app "operator.itemgetter" [(Term.app "*" [by2'])]);
+  let other_ids' : Term := (Term.app "set" [(Term.app "map" [extract2', (Term.sym "other")])]);
+  let eff0 : Term := (Term.app "for" [(Term.sym "item"), (Term.sym "self"), (Term.app "block" [(Term.app "if" [(Term.app "NotIn" [(Term.app "call" [extract1', (Term.sym "item")]), other_ids']), (Term.app "block" [(Term.app "yield" [(Term.sym "item")])]), (Term.app "block" [])])])]);
+  Out.fall [eff0]
+
+/-- the decorators of dataiter/list_of_dicts.py: ListOfDicts.anti_join, outermost first -/
+def ListOfDicts_anti_join_decorators : List String := ["deco.new_from_generator"]
+
+/-- dataiter/list_of_dicts.py: ListOfDicts.inner_join (sha256 of the function source: 2a3392b4a2f7e25d) -/
+def ListOfDicts_inner_join (truth : Term → Bool) : Out :=
+  let tup0_1' : Term := (Term.app "._split_join_by" [(Term.sym "self"), (Term.app "*" [(Term.sym "by")])]);
+  let by1' : Term := (Term.app "item0" [tup0_1']);
+  let by2' : Term := (Term.app "item1" [tup0_1']);
+  let extract1' : Term := (Term.app "operator.itemgetter" [(Term.app "*" [by1'])]);
+  let extract2' : Term := (Term.app "operator.itemgetter" [(Term.app "*" [by2'])]);
+  let other_by_id' : Term := (Term.app "DictComp" [(Term.app "pair" [(Term.app "call" [extract2', (Term.sym "x")]), (Term.sym "x")]), (Term.app "in" [(Term.sym "x"), (Term.app "reversed" [(Term.sym "other")]), (Term.app "if" [])])]);
+  let eff0 : Term := (Term.app "for" [(Term.sym "item"), (Term.sym "self"), (Term.app "block" [(Term.app "assign" [(Term.sym "id"), (Term.app "call" [extract1', (Term.sym "item")])]), (Term.app "if" [(Term.app "In" [(Term.sym "id"), other_by_id']), (Term.app "block" [(Term.app "assign" [(Term.sym "new"), (Term.app "getitem" [other_by_id', (Term.sym "id")])]), (Term.app "assign" [(Term.sym "new"), (Term.app "DictComp" [(Term.app "pair" [(Term.sym "k"), (Term.sym "v")]), (Term.app "in" [(Term.app "tuple" [(Term.sym "k"), (Term.sym "v")]), (Term.app ".items" [(Term.sym "new")]), (Term.app "if" [(Term.app "NotIn" [(Term.sym "k"), by2'])])])])]), (Term.app ".update" [(Term.sym "item"), (Term.sym "new")]), (Term.app "yield" [(Term.sym "item")])]), (Term.app "block" [])])])]);
+  let id' : Term := (Term.app "value-after-loop" [(Term.sym "id"), eff0]);
+  let new' : Term := (Term.app "value-after-loop" [(Term.sym "new"), eff0]);
+  Out.fall [eff0]
+
+/-- the decorators of dataiter/list_of_dicts.py: ListOfDicts.inner_join, outermost first -/
+def ListOfDicts_inner_join_decorators : List String := ["deco.obsoletes", "deco.new_from_generator"]
+
+/-- dataiter/list_of_dicts.py: ListOfDicts.full_join (sha256 of the function source: fa2fdb6b559a09d8) -/
+def ListOfDicts_full_join (truth : Term → Bool) : Out :=
+  let acounter' : Term := (Term.app "itertools.count" [(Term.app "=start" [(Term.int (1 : Int))])]);
+  let bcounter' : Term := (Term.app "itertools.count" [(Term.app "=start" [(Term.int (1 : Int))])]);
+  let a' : Term := (Term.app ".modify" [(Term.app ".deepcopy" [(Term.sym "self")]), (Term.app "=_aid_" [(Term.app "lambda" [(Term.app "params" [(Term.sym "x")]), (Term.app "next" [acounter'])])])]);
+  let b' : Term := (Term.app ".modify" [(Term.app ".deepcopy" [(Term.sym "other")]), (Term.app "=_bid_" [(Term.app "lambda" [(Term.app "params" [(Term.sym "x")]), (Term.app "next" [bcounter'])])])]);
+  let ab' : Term := (Term.app ".left_join" [(Term.app ".deepcopy" [a']), b', (Term.app "*" [(Term.sym "by")])]);
+  let ab' : Term := (Term.app ".fill_missing_keys" [ab', (Term.app "=_bid_" [(Term.app "next" [bcounter'])])]);
+  let b' : Term := (Term.app ".anti_join" [b', ab', (Term.sym "'_bid_'")]);
+  if truth (Term.app "Eq" [(Term.app "len" [b']), (Term.int (0 : Int))]) then
+    Out.ret [] (Term.app ".unselect" [ab', (Term.sym "'_aid_'"), (Term.sym "'_bid_'")])
+  else
+    let by_reverse' : Term := (Term.app "ListComp" [(Term.app "ifexp" [(Term.app "isinstance" [(Term.sym "x"), (Term.app "tuple" [(Term.sym "list"), (Term.sym "tuple")])]), (Term.app "tuple" [(Term.app "reversed" [(Term.sym "x")])]), (Term.sym "x")]), (Term.app "in" [(Term.sym "x"), (Term.sym "by"), (Term.app "if" [])])]);
+    let ba' : Term := (Term.app ".left_join" [b', a', (Term.app "*" [by_reverse'])]);
+    let ba' : Term := (Term.app ".fill_missing_keys" [ba', (Term.app "=_aid_" [(Term.app "next" [acounter'])])]);
+    Out.ret [] (Term.app ".unselect" [(Term.app ".sort" [(Term.app "Add" [ab', ba']), (Term.app "=_aid_" [(Term.int (1 : Int))]), (Term.app "=_bid_" [(Term.int (1 : Int))])]), (Term.sym "'_aid_'"), (Term.sym "'_bid_'")])
+
+/-- the decorators of dataiter/list_of_dicts.py: ListOfDicts.full_join, outermost first -/
+def ListOfDicts_full_join_decorators : List String := []
+
+/-- dataiter/list_of_dicts.py: ListOfDicts._split_join_by (sha256 of the function source: 514e3228ccced4c1) -/
+def ListOfDicts_split_join_by (truth : Term → Bool) : Out :=
+  let by1' : Term := (Term.app "ListComp" [(Term.app "ifexp" [(Term.app "isinstance" [(Term.sym "x"), (Term.sym "str")]), (Term.sym "x"), (Term.app "getitem" [(Term.sym "x"), (Term.int (0 : Int))])]), (Term.app "in" [(Term.sym "x"), (Term.sym "by"), (Term.app "if" [])])]);
+  let by2' : Term := (Term.app "ListComp" [(Term.app "ifexp" [(Term.app "isinstance" [(Term.sym "x"), (Term.sym "str")]), (Term.sym "x"), (Term.app "getitem" [(Term.sym "x"), (Term.int (1 : Int))])]), (Term.app "in" [(Term.sym "x"), (Term.sym "by"), (Term.app "if" [])])]);
+  Out.ret [] (Term.app "tuple" [by1', by2'])
+
+/-- the decorators of dataiter/list_of_dicts.py: ListOfDicts._split_join_by, outermost first -/
+def ListOfDicts_split_join_by_decorators : List String := []
+
+/-- dataiter/list_of_dicts.py: ListOfDicts.aggregate (sha256 of the function source: 54015ea61e3b2491) -/
+def ListOfDicts_aggregate (truth : Term → Bool) : Out :=
+  let by' : Term := (Term.app "._group_keys" [(Term.sym "self")]);
+  let groups' : Term := (Term.app ".select" [(Term.app ".deepcopy" [(Term.app ".unique" [(Term.sym "self"), (Term.app "*" [by'])])]), (Term.app "*" [by'])]);
+  let extract' : Term := (Term.app "operator.itemgetter" [(Term.app "*" [by'])]);
+  let items_by_group' : Term := (Term.sym "{}");
+  let eff0 : Term := (Term.app "for" [(Term.sym "item"), (Term.sym "self"), (Term.app "block" [(Term.app "assign" [(Term.sym "id"), (Term.app "call" [extract', (Term.sym "item")])]), (Term.app ".append" [(Term.app ".setdefault" [items_by_group', (Term.sym "id"), (Term.app "list" [])]), (Term.sym "item")])])]);
+  let id' : Term := (Term.app "value-after-loop" [(Term.sym "id"), eff0]);
+  let key_function_pairs' : Term := (Term.app ".items" [(Term.sym "key_function_pairs")]);
+  let eff1 : Term := (Term.app "for" [(Term.sym "group"), (Term.app ".sort" [groups', (Term.app "=**" [(Term.app "dict.fromkeys" [by', (Term.int (1 : Int))])])]), (Term.app "block" [(Term.app "assign" [(Term.sym "id"), (Term.app "call" [extract', (Term.sym "group")])]), (Term.app "assign" [(Term.sym "items"), (Term.app "ListOfDicts" [(Term.app "getitem" [items_by_group', (Term.sym "id")])])]), (Term.app "for" [(Term.app "tuple" [(Term.sym "key"), (Term.sym "function")]), key_function_pairs', (Term.app "block" [(Term.app "store" [(Term.app "getitem" [(Term.sym "group"), (Term.sym "key")]), (Term.app "call" [(Term.sym "function"), (Term.sym "items")])])])]), (Term.app "yield" [(Term.sym "group")])]), (Term.app "init" [(Term.sym "id"), id'])]);
+  let id' : Term := (Term.app "value-after-loop" [(Term.sym "id"), eff1]);
+  let items' : Term := (Term.app "value-after-loop" [(Term.sym "items"), eff1]);
+  Out.fall [eff0, eff1]
+
+/-- the decorators of dataiter/list_of_dicts.py: ListOfDicts.aggregate, outermost first -/
+def ListOfDicts_aggregate_decorators : List String := ["deco.new_from_generator"]
+
 /-- dataiter/list_of_dicts.py: ListOfDicts.left_join (sha256 of the function source: 006ed310d1531972) -/
 def ListOfDicts_left_join (truth : Term → Bool) : Out :=
   let tup0_1' : Term := (Term.app "._split_join_by" [(Term.sym "self"), (Term.app "*" [(Term.sym "by")])]);
@@ -22,6 +98,9 @@ def ListOfDicts_left_join (truth : Term → Bool) : Out :=
   let new' : Term := (Term.app "value-after-loop" [(Term.sym "new"), eff0]);
   Out.fall [eff0]
 
+/-- the decorators of dataiter/list_of_dicts.py: ListOfDicts.left_join, outermost first -/
+def ListOfDicts_left_join_decorators : List String := ["deco.obsoletes", "deco.new_from_generator"]
+
 /-- dataiter/list_of_dicts.py: ListOfDicts.semi_join (sha256 of the function source: 1a2b464ac3263fa5) -/
 def ListOfDicts_semi_join (truth : Term → Bool) : Out :=
   let tup0_1' : Term := (Term.app "._split_join_by" [(Term.sym "self"), (Term.app "*" [(Term.sym "by")])]);
@@ -32,5 +111,8 @@ def ListOfDicts_semi_join (truth : Term → Bool) : Out :=
   let other_ids' : Term := (Term.app "set" [(Term.app "map" [extract2', (Term.sym "other")])]);
   let eff0 : Term := (Term.app "for" [(Term.sym "item"), (Term.sym "self"), (Term.app "block" [(Term.app "if" [(Term.app "In" [(Term.app "call" [extract1', (Term.sym "item")]), other_ids']), (Term.app "block" [(Term.app "yield" [(Term.sym "item")])]), (Term.app "block" [])])])]);
   Out.fall [eff0]
+
+/-- the decorators of dataiter/list_of_dicts.py: ListOfDicts.semi_join, outermost first -/
+def ListOfDicts_semi_join_decorators : List String := ["deco.new_from_generator"]
 
 end DI.Gen
